@@ -489,7 +489,10 @@ func (vm *VM) fieldByIndex(s reflect.Value, i uint8) reflect.Value {
 
 func (vm *VM) finalize(regs [][2]int8) {
 	for _, reg := range regs {
-		vm.setFromReflectValue(reg[1], vm.generalIndirect(reg[0]))
+		// The value is read with its static type, so that a result with an
+		// interface type is stored in a general register whatever its
+		// dynamic type is.
+		vm.setFromReflectValue(reg[1], vm.general(reg[0]).Elem())
 	}
 }
 
